@@ -117,7 +117,7 @@ class MFramer(object):
 
 
 class Model(object):
-    def __init__(self, program, P, env_table=None, max_ticks=200, fix_suspended_exit=True):
+    def __init__(self, program, P, env_table=None, max_ticks=200, fix_suspended_exit=True, sweep_order=None):
         self.P = frac(P)
         self.prog = program
         self.env_table = env_table or {}
@@ -129,6 +129,9 @@ class Model(object):
         self.framers = {}
         self.forder = []
         self.max_ticks = max_ticks
+        # the order in which the final sweep aborts the remaining taskers is not fixed by any statement: when the caller
+        # passes the order the implementation used, the model follows it (taskers it does not name come last)
+        self.sweep_order = list(sweep_order or [])
         self.now = Fraction(0)
         self.fix_suspended_exit = fix_suspended_exit
         self.cap = None
@@ -586,6 +589,7 @@ class Model(object):
             tick += 1
             self.now = tick * self.P
         self.ticks = tick
-        for name in ready:
+        so = self.sweep_order
+        for name in sorted(ready, key=lambda n: so.index(n) if n in so else len(so)):
             self.send(self.framers[name], ABORT)
         return self.trace
